@@ -279,9 +279,16 @@ impl Decoder for LenPrefix {
     }
 }
 
+/// Items of exactly this size are refused by the length-prefixed encoders (before anything is
+/// written to the buffer): a fallible encoder.
+const REFUSED_SIZE: usize = 4242;
+
 impl Encoder<Bytes> for LenPrefix {
     type Error = io::Error;
     fn encode(&mut self, item: Bytes, dst: &mut BytesMut) -> Result<(), io::Error> {
+        if item.len() == REFUSED_SIZE {
+            return Err(io::Error::new(io::ErrorKind::InvalidInput, "item refused by the encoder"));
+        }
         dst.put_u16(item.len().min(0xFFFE) as u16);
         dst.extend_from_slice(&item[..item.len().min(0xFFFE)]);
         Ok(())
@@ -797,7 +804,7 @@ fn run_c14(cfg: &Config, ch: &mut Chooser<Action>, ctx: &mut RunCtx) -> Option<V
     let mut errored = false;
     let mut flush_ok = 0;
     let mut partials = 0;
-    let sizes = [0usize, 1, 17, LW - 1, LW, LW + 1, 3000, HW - 1, HW, HW + 1, 3 * HW];
+    let sizes = [0usize, 1, 17, LW - 1, LW, LW + 1, 3000, REFUSED_SIZE, HW - 1, HW, HW + 1, 3 * HW];
 
     loop {
         let mut en: Vec<(Action, u32)> = Vec::new();
@@ -860,13 +867,21 @@ fn run_c14(cfg: &Config, ch: &mut Chooser<Action>, ctx: &mut RunCtx) -> Option<V
                 let item = item_bytes(cfg, size, sent);
                 let mut enc = BytesMut::new();
                 f.encode_ref(&item, &mut enc);
+                let refuse = size == REFUSED_SIZE && matches!(cfg.codec, Codec::LenPrefix | Codec::LenTrailer);
                 let r = f.start_send(item);
                 ev!(ctx, "start_send {size} -> {}", r.is_ok());
+                if r.is_ok() == refuse {
+                    return Some(Violation::new("start-send-result", format!("start_send of a {size}-byte item returned ok={} but the encoder {}", r.is_ok(), if refuse { "refuses it" } else { "accepts it" })));
+                }
                 if r.is_ok() {
                     expected.extend_from_slice(&enc);
                     sent += 1;
                 } else {
-                    errored = true;
+                    // a refused item is not part of the stream; what was accepted before it stays
+                    ctx.bump("probe.item_refused_by_encoder");
+                    if expected.len() > f.io().written.len() {
+                        ctx.bump("probe.item_refused_with_bytes_buffered");
+                    }
                 }
             }
             Action::PollReady | Action::PollFlush | Action::PollClose | Action::Spurious(_) => {
@@ -1117,7 +1132,7 @@ impl Engine for IoSim {
             rule: if prop == "C13" {
                 "byte streams (0..64 bytes over an alphabet with the codec's delimiters / length prefixes incl. a poison length; long streams of 1-40 KiB with frames around the 1 KiB and 8 KiB marks and larger than 8 KiB) cut into read chunks by seeded Feed(n) actions, Pending wherever the stream is polled with nothing available, optional single read error (ConnectionReset / Interrupted / TimedOut: each must surface as an item), EOF, in a quarter of the runs the Framed is taken apart and rebuilt mid-stream (into_map_codec / into_map_io / into_parts+from_parts); items (frames and decode errors, decoding goes on behind an error) compared one by one with the same codec applied to the undivided stream (BytesCodec: concatenation), a stateful partner codec yields an end-of-stream frame from the empty buffer; whenever the stream returns Pending or the injected I/O error, every item complete in the bytes read before has been yielded; non-trivial = >=2 items and >=1 Pending read; distinct = distinct event-trace hash".into()
             } else {
-                "item sequences (<=12 items, sizes 0,1,17,LW-1,LW,LW+1,3000,HW-1,HW,HW+1,3HW) and transport scripts (accept k bytes / runs of 20-40 small accepts / Pending / zero / error / EINTR; flush and shutdown Ok / Pending / error) and, in a quarter of the runs, rebuilds of the Framed (replace_codec / into_map_codec / into_map_io / into_parts+from_parts, which carry both buffers along) interleaved with poll_ready / start_send / poll_flush / poll_close under strict-wake; byte ledger and result invariants after every call; non-trivial = >=1 item accepted and a flush or close succeeded; distinct = distinct event-trace hash".into()
+                "item sequences (<=12 items, sizes 0,1,17,LW-1,LW,LW+1,3000,4242 (refused by the length-prefixed encoders: a fallible encoder),HW-1,HW,HW+1,3HW) and transport scripts (accept k bytes / runs of 20-40 small accepts / Pending / zero / error / EINTR; flush and shutdown Ok / Pending / error) and, in a quarter of the runs, rebuilds of the Framed (replace_codec / into_map_codec / into_map_io / into_parts+from_parts, which carry both buffers along) interleaved with poll_ready / start_send / poll_flush / poll_close under strict-wake; byte ledger and result invariants after every call; non-trivial = >=1 item accepted and a flush or close succeeded; distinct = distinct event-trace hash".into()
             },
             real: vec!["actix_codec::Framed (Stream and Sink faces)", "actix_codec::LinesCodec", "actix_codec::BytesCodec"],
             stub: vec!["transport (SimIo: scripted AsyncRead/AsyncWrite)", "length-prefixed codec (harness partner with decode error and decode_eof tail)", "executor (strict-wake manual polling)"],
@@ -1128,7 +1143,7 @@ impl Engine for IoSim {
         if prop == "C13" {
             vec!["probe.pending_returned", "probe.end_reached", "probe.io_error_surfaced", "probe.frame_larger_than_hw", "probe.items_behind_decode_error", "probe.io_error_after_decode_error", "probe.eof_frame_from_empty_buffer", "probe.rebuilt_mid_stream"]
         } else {
-            vec!["probe.partial_progress", "probe.sink_pending", "probe.close_ok", "probe.write_zero_reported", "probe.ready_after_flush", "probe.interrupted_reported", "probe.more_than_16_writes_in_one_call", "probe.rebuilt_with_bytes_buffered"]
+            vec!["probe.partial_progress", "probe.sink_pending", "probe.close_ok", "probe.write_zero_reported", "probe.ready_after_flush", "probe.interrupted_reported", "probe.more_than_16_writes_in_one_call", "probe.rebuilt_with_bytes_buffered", "probe.item_refused_with_bytes_buffered"]
         }
     }
 }
